@@ -70,7 +70,11 @@ func drawParams(t *simrt.Tape, sub bool) string {
 		}
 		s += drawParamValue(t)
 		if sub {
-			for k := t.Draw(4); k > 1; k-- {
+			k := t.Draw(4)
+			if t.Draw(6) == 0 {
+				k = 5 + t.Draw(10) // beyond any pooled capacity
+			}
+			for ; k > 1; k-- {
 				s += ":" + drawParamValue(t)
 			}
 		}
